@@ -6,7 +6,7 @@ from fractions import Fraction
 
 from ..algebra import FALSE, INF, NONE, RF, TRUE, Lit, rf_inf, rf_minmax
 from ..extfacts import HEAVY_LIBS, evaluated_chains, numpy_stub_names, resolve_chain
-from ..index import AnalysisError, FuncInfo, norm_stmt
+from ..index import AnalysisError, FuncInfo, mangle, norm_stmt
 from ..paths import TupleVal, atomv, key_of
 from ..paths import _is_trivial
 from ..report import Ctx
@@ -709,7 +709,51 @@ def r03_8(ctx: Ctx):
             ctx.ok(rid, f'SolverParameters.{fld}', 'written only by the SolverParameters constructor', pc.lookup('__init__').loc())
 
 
+def r03_9(ctx: Ctx):
+    """Recursive traversals of the search data.  copy.deepcopy / pickle of a stored search item follow its neighbour
+    links recursively: the recursion depth grows with the number of trials, and the RecursionError (an exception like
+    any other for the handler of Solve) ends the search long before the stop criterion holds."""
+    rid = 'R03.9'
+    ctx.rule(rid, 'no deepcopy / pickle of an object from which linked search items are reachable on the path of the '
+                  'solving API (recursion depth proportional to the number of trials; the RecursionError is swallowed by '
+                  'the failure handler and the search stops early)')
+    roles = C.roles_of(ctx)
+    pta = ctx.pta
+    item = ctx.ix.cls('SearchDataItem')
+    api = [roles.api(n_) for n_ in ('Solve', 'DoGlobalIteration', 'DoLocalRefinement', 'GetResults')]
+    reach = pta.reachable([a for a in api if a is not None], stop=None)
+    links = [mangle(item.name, n_) for n_ in ('__leftPoint', '__rightPoint')]
+    n = 0
+    for (caller, nid), names in sorted(pta.ext_calls.items(), key=lambda kv: (kv[0][0], kv[0][1])):
+        if not (names & {'copy.deepcopy', 'pickle.dumps', 'pickle.dump', 'copy.copy.deepcopy'}):
+            continue
+        if caller not in reach:
+            continue
+        f = ctx.ix.funcs.get(caller.replace('@setter', ''))
+        node = pta.call_nodes.get((caller, nid))
+        if f is None or node is None or not node.args:
+            continue
+        n += 1
+        roots = pta.expr_pts(f, node.args[0])
+        linked = []
+        for o in pta.reach_objs(roots, max_n=20000):
+            if o.cls is not None and o.cls.is_subclass_of(item) and \
+                    any(x.cls is not None and x.cls.is_subclass_of(item) for fld in links for x in pta.read_field(o, fld)):
+                linked.append(o)
+        # the item under construction copied before it is linked is the clone's *source*: its own links stay None
+        ctx.check(not linked, rid, f.short, f.loc(node),
+                  f'{ast.unparse(node)[:50]}: no linked search item is reachable from the copied object',
+                  f'{ast.unparse(node)[:60]} copies an object from which linked search items are reachable '
+                  f'({linked[0].describe() if linked else ""}): the copy follows the neighbour links recursively, so '
+                  f'its depth grows with the number of trials; beyond the recursion limit the RecursionError is caught by '
+                  f'Solve as a failure and the search ends before the stop criterion holds',
+                  key=ctx.key_for(rid, f, node))
+    ctx.floor(rid, 'deepcopy / pickle call sites on the path of the solving API', n, 1)
+
+
 def check(ctx: Ctx):
+    if C.want(ctx, 'R03.9'):
+        r03_9(ctx)
     if C.want(ctx, 'R-LINK'):
         r_link(ctx)
         r_link_private(ctx)
